@@ -140,6 +140,28 @@ pub fn checks() -> Vec<Check> {
             assumptions: A_MODEL,
         },
         Check {
+            id: "C16",
+            engine: Engine::EModel,
+            level: "exploration",
+            quick_cases: 64,
+            thorough_cases: 1600,
+            quick_budget_s: 50,
+            thorough_budget_s: 900,
+            rule: "case = one decode of the whole directory (meta, bbn, ln incl. overflow chains and both free lists, ht meta bytes and every full bucket's page) by the independent decoder at a quiescent point (after each commit / rollback / reopen), compared with the model's key-value set and, node by node, with the reference trie;                    non-trivial when the image has >=2 branch nodes, or an overflow chain, or a tombstone, or an elided child page; distinct = distinct (case seed, op index)",
+            assumptions: A_DECODE,
+        },
+        Check {
+            id: "C19",
+            engine: Engine::EModel,
+            level: "exploration",
+            quick_cases: 64,
+            thorough_cases: 1600,
+            quick_budget_s: 50,
+            thorough_budget_s: 900,
+            rule: "case = one page-accounting evaluation of a decoded image (every page below the ln/bbn frontier is live, a free-list item or a free-list page; occupied == full buckets on disk == distinct stored pages; zero on an empty store), plus one evaluation per 8-12-cycle fill/overwrite/empty run (frontier after the empty phase of cycles 6.. must not exceed the maximum of cycles 2-5);                    non-trivial when the image has a non-empty free list (pages were freed or reused)",
+            assumptions: A_DECODE,
+        },
+        Check {
             id: "C07",
             engine: Engine::EProof,
             level: "exploration",
@@ -174,6 +196,12 @@ pub fn checks() -> Vec<Check> {
         },
     ]
 }
+
+const A_DECODE: &[&str] = &[
+    "the decoder re-implements the file formats from their layout comments; PageId::decode/encode and the xxh3 seed rule are taken from nomt_core/twox-hash (trusted)",
+    "images are decoded at quiescent points only (after a commit/rollback/open has returned)",
+    "the reference model and reference trie are the specification of the abstract state",
+];
 
 const A_PROOF: &[&str] = &[
     "truth = the key/value-hash set itself; honest proofs come from the harness's reference trie (raw blake3/sha2)",
